@@ -205,6 +205,8 @@ FileSpace0 == ValidFiles
              \cup (IF DevDepth >= 1 THEN UNION {Dev1(f) : f \in DevBases} ELSE {})
              \cup (IF DevDepth >= 2 THEN UNION {UNION {Dev1(g) : g \in Dev1(f)} : f \in {[streams |-> <<MkStream(1, <<BlockOf(Opt(BaseD, TRUE, TRUE, 2, 4))>>, 0)>>]}} ELSE {})
 (* only layouts that can be written: a header as written is a multiple of four bytes *)
-Writable(f) == \A s \in 1..Len(f.streams) : \A b \in 1..Len(f.streams[s].blocks) : HdrReal(f.streams[s].blocks[b]) % 4 = 0
+Writable(f) == /\ \A s \in 1..Len(f.streams) : \A b \in 1..Len(f.streams[s].blocks) : HdrReal(f.streams[s].blocks[b]) % 4 = 0
+               \* a malformed Index VLI must be one of the VLIs the Index has (pairs of violations may have removed the Record)
+               /\ \A s \in 1..Len(f.streams) : ~f.streams[s].ivli => f.streams[s].ivpos \in 1..(1 + 2 * Len(f.streams[s].irecs))
 FileSpace == {f \in FileSpace0 : Writable(f)}
 =============================================================================
